@@ -201,7 +201,7 @@ func rewrite(path, relDir string, counts map[string]int) ([]byte, error) {
 		if !ok {
 			return true
 		}
-		if p, name, ok := pkgSel(se); ok && p == "sync" && (name == "Mutex" || name == "RWMutex" || name == "Pool") {
+		if p, name, ok := pkgSel(se); ok && p == "sync" && (name == "Mutex" || name == "RWMutex" || name == "Pool" || name == "Map") {
 			se.X = ast.NewIdent("simhook")
 			used = true
 			removedUse["sync"] = true
